@@ -39,7 +39,8 @@ Theorem C02_late_results :
   done_ret "Bar" "IsRunning" = Some "false"%string /\
   forallb (fun m => match done_ret "Bar" m with Some ""%string => true | _ => false end)
     ["SetRefill"; "EnableTriggerComplete"; "SetTotal"; "SetCurrent"; "IncrInt64"; "EwmaIncrInt64"; "EwmaSetCurrent"; "Abort"]%string = true /\
-  done_ret "Progress" "UpdateBarPriority" = Some ""%string.
+  done_ret "Progress" "UpdateBarPriority" = Some ""%string /\
+  done_ret "Progress" "traverseBars" = Some ""%string.
 Proof. exact late_results. Qed.
 Print Assumptions C02_late_results.
 
